@@ -25,6 +25,8 @@ VALUES_WITH_COMMENT = [['x', '/* v */', 'y'], ['1px', '/* ; } */', 'solid'], ['f
 # a Sass map written over several lines, with line comments after its entries (they may hold anything: `;`, braces, an unbalanced parenthesis)
 VALUES_WITH_COMMENT += [['(\n  sm: 576px, // phones; small {\n  md: 768px\n)'], ['(a: 1, // 1) first\n b: 2)'], ['f(x, // }\n y)', 'z']]
 SEMI_IN_PAREN = [['url(data:image/png;base64,aaa)'], ['url(data:x;y)', 'no-repeat'], ['f(a;b)']]
+# (the same recorded mechanism with braces: SCSS interpolation inside a function)
+SEMI_IN_PAREN += [['calc(100% - #{$gap})'], ['url(#{$p}/a.png)', 'no-repeat'], ['percentage(math.div(#{$i}, 12))'], ['f(#{a}, #{b})', 'x']]
 COMMENTS = ['/* a:b; } */', '/* { */', '/**/', '/* x */', '/* ; */', '/*\n * multi\n */']
 # the line comments of SCSS / LESS / Stylus (each ends with its line break)
 COMMENTS += ['// x\n', "// don't {\n", '// a: b;\n', '//\n', '// } /* \n', '// "q\r\n']
